@@ -370,7 +370,11 @@ def check_convert_value(val: str, char: Characteristic) -> Any:
         # See https://github.com/home-assistant/core/issues/37083
         if char.minStep:
             with localcontext() as ctx:
-                ctx.prec = 6
+                # Six significant digits hide float noise (0.1 is not exactly
+                # representable) for float characteristics. Integer formats are
+                # exact and can need far more than six digits (uint32, uint64).
+                if char.format not in INTEGER_TYPES:
+                    ctx.prec = 6
 
                 # Python3 uses bankers rounding by default, so 28.5 rounds to 28, not 29.
                 # This is surprising for most people
